@@ -28,6 +28,9 @@ def models(tier):
         hold["node"]["retransmit_queue_size"] = W
         out.append(monitors.ScenarioModel(f"held-answers-window-{W}", hold,
                                           [("m", 0, n) for n in reqs[:6]] + [("ans", 0), ("ans", 1), ("ans", 2)], MONS, max_socks=1, prelude=PRE))
+    # a second deterministic scheduling policy (the I/O thread runs only when nothing else can)
+    if True:
+        out = monitors.with_io_last(out)
     return out
 
 
